@@ -94,8 +94,10 @@ func (*drv) Open(dsn string) (driver.Conn, error) {
 
 type conn struct{ db *DB }
 
-func (c *conn) Begin() (driver.Tx, error) { return nil, errors.New("fakesql: transactions not supported") }
-func (c *conn) Close() error              { return nil }
+func (c *conn) Begin() (driver.Tx, error) {
+	return nil, errors.New("fakesql: transactions not supported")
+}
+func (c *conn) Close() error { return nil }
 func (c *conn) Prepare(q string) (driver.Stmt, error) {
 	st, err := Parse(q, c.db.Dialect)
 	if err != nil {
